@@ -661,6 +661,7 @@ func (d *Data) cleaveIndex(v dvid.VersionID, op labels.CleaveOp, info dvid.ModIn
 		dvid.Criticalf("unable to add cleaved mutid %d index %d: %v\n", op.MutID, op.Target, err)
 	}
 
+	dvid.VerifPoint("labelmap.cleaveIndex", op.Target)
 	supervoxels := idx.GetSupervoxels()
 	for _, supervoxel := range op.CleavedSupervoxels {
 		if _, found := supervoxels[supervoxel]; !found {
@@ -706,6 +707,7 @@ func ChangeLabelIndex(d dvid.Data, v dvid.VersionID, label uint64, delta labels.
 		idx.Label = label
 	}
 
+	dvid.VerifPoint("labelmap.ChangeLabelIndex", label)
 	if err := idx.ModifyBlocks(label, delta); err != nil {
 		return err
 	}
